@@ -15,12 +15,13 @@ where
 
 pub fn net_addresses() -> Vec<validator::NetAddress> {
     let mut out = vec![];
-    let addrs: [std::net::SocketAddr; 5] = [
+    let addrs: [std::net::SocketAddr; 6] = [
         "127.0.0.1:3000".parse().unwrap(),
         "0.0.0.0:0".parse().unwrap(),
         "255.255.255.255:65535".parse().unwrap(),
         "[::1]:1".parse().unwrap(),
         "[ffff:ffff:ffff:ffff:ffff:ffff:ffff:ffff]:65535".parse().unwrap(),
+        "[::ffff:10.1.2.3]:3054".parse().unwrap(),
     ];
     let stamps = [
         time::UNIX_EPOCH,
@@ -77,7 +78,12 @@ pub fn all(seed: u64, big_payload: bool) -> Vec<WireType> {
     v.push(wire_type("std::Void", vec![()]));
     v.push(wire_type(
         "std::SocketAddr",
-        vec!["127.0.0.1:3000", "0.0.0.0:0", "255.255.255.255:65535", "[::1]:1", "[2001:db8::1]:443", "[ffff:ffff:ffff:ffff:ffff:ffff:ffff:ffff]:65535"].into_iter().map(|s| s.parse::<std::net::SocketAddr>().unwrap()).collect(),
+        // incl. one representative of every special IPv6 range that some std / OS function maps to
+        // another address (IPv4-mapped, IPv4-compatible, NAT64, 6to4, unspecified, link-local, multicast)
+        vec![
+            "127.0.0.1:3000", "0.0.0.0:0", "255.255.255.255:65535", "10.1.2.3:3054", "169.254.0.1:1", "[::1]:1", "[2001:db8::1]:443", "[ffff:ffff:ffff:ffff:ffff:ffff:ffff:ffff]:65535",
+            "[::]:0", "[::ffff:10.1.2.3]:3054", "[::ffff:0.0.0.0]:1", "[::ffff:255.255.255.255]:65535", "[::10.1.2.3]:3054", "[64:ff9b::a01:203]:3054", "[2002:a01:203::1]:3054", "[fe80::1]:1", "[ff02::1]:1",
+        ].into_iter().map(|s| s.parse::<std::net::SocketAddr>().unwrap()).collect(),
     ));
     v.push(wire_type("std::Duration", durations()));
     v.push(wire_type("std::Timestamp", durations().into_iter().map(|d| time::UNIX_EPOCH + d).collect()));
